@@ -19,6 +19,7 @@ var scanRows = map[string]string{
 	"embedded-struct":  "an anonymous, untagged, by-value struct field is descended into with an embed holder built from the same sub-value and is not itself recorded",
 	"settable-field":   "any other settable field is recorded exactly once with its type, value, declaring holder and struct field",
 	"unsettable-field": "an unexported (unsettable) field is neither recorded nor descended into",
+	"whole-scan":       "scanning a struct with fields before, inside and after an embedded struct records every settable one exactly once, in declaration order, the embedded struct's fields in its place and under an embed holder",
 }
 
 // scanTable interprets the per-field callback of Meta.scanFields.
@@ -60,6 +61,7 @@ func scanTable(c *core.Ctx) (rs rows, runs int, lit *ssa.Function, undecided str
 			for _, kind := range []int64{25, 22, 20, 24} { // struct, pointer, interface, string
 				for _, canSet := range []bool{true, false} {
 					var events []string
+					var lastBind []absint.Value
 					var m, holder, value, sf, ftype *absint.Tok
 					build := func() (absint.Oracle, []absint.Value, []absint.Value) {
 						events = nil
@@ -117,14 +119,25 @@ func scanTable(c *core.Ctx) (rs rows, runs int, lit *ssa.Function, undecided str
 							et := fv.Type().Underlying().(*types.Pointer).Elem()
 							v := valueOfType(et, pick, 0)
 							if v == nil {
-								panic(&absint.Undecided{Msg: "the field callback captures a " + et.String()})
+								v = absint.New(nil).ZeroOf(et) // a local accumulator of the scanning function
 							}
 							bind = append(bind, &absint.Cell{V: v})
 						}
+						lastBind = bind
 						return t, layoutArgs(lit, pick), bind
 					}
 					check := func(ip *absint.Interp, out absint.Outcome) {
 						fl, _ := m.Fields["Fields"].(*absint.List)
+						if fl == nil || len(fl.Elems) == 0 {
+							// the scanning routine may accumulate in a local list that it hands back
+							for _, b := range lastBind {
+								if cell, ok := b.(*absint.Cell); ok {
+									if l, ok := cell.V.(*absint.List); ok && len(l.Elems) > 0 {
+										fl = l
+									}
+								}
+							}
+						}
 						nrec := 0
 						recDesc := ""
 						if fl != nil {
@@ -177,7 +190,165 @@ func scanTable(c *core.Ctx) (rs rows, runs int, lit *ssa.Function, undecided str
 			}
 		}
 	}
+	// the scan as a whole: the scanning routine itself on a struct {a; Embedded{x; y(unexported)}; b} - whatever way it
+	// accumulates (appending to the definition, or returning the list)
+	wr, wund := scanWhole(c, scan)
+	runs++
+	if wund != "" {
+		return rs, runs, lit, wund
+	}
+	rs.hit("whole-scan")
+	if wr != "" {
+		rs.fail("whole-scan", wr)
+	}
 	return
+}
+
+// scanWhole interprets Meta.scanFields with the struct-field iterator of util/reflectx as an oracle.
+func scanWhole(c *core.Ctx, scan *ssa.Function) (bad, undecided string) {
+	metaT := c.Named("component_definition", "Meta")
+	holderT := c.Named("component_definition", "Holder")
+	t := newTbl(c)
+	m := absint.NewTok("meta", "meta")
+	m.Fields["Fields"] = &absint.List{IsNil: true}
+	top := absint.NewTok("holder", "holder")
+	topBase := absint.NewTok("holder.Base", "base")
+	topType, topVal := absint.NewTok("T:top", "type"), absint.NewTok("V:top", "rvalue")
+	topBase.Fields["Type"], topBase.Fields["Value"] = topType, topVal
+	top.Fields["Base"], top.Fields["Meta"], top.Fields["IsEmbed"] = topBase, m, absint.Bool(false)
+	type fd struct {
+		name      string
+		anonymous bool
+		kind      int64
+		canSet    bool
+	}
+	layout := map[string][]fd{
+		"T:top":      {{"a", false, 24, true}, {"Embedded", true, 25, true}, {"b", false, 22, true}},
+		"T:Embedded": {{"x", false, 24, true}, {"y", false, 24, false}},
+	}
+	canSet := map[absint.Value]bool{}
+	kindOf := map[absint.Value]int64{topType: 25}
+	t.invokeN["Kind"] = func(ip *absint.Interp, a []absint.Value) absint.Value {
+		if k, ok := kindOf[a[0]]; ok {
+			return absint.Int(k)
+		}
+		panic(&absint.Undecided{Msg: "Kind() of an unknown type token"})
+	}
+	t.ext["(reflect.Value).CanSet"] = func(ip *absint.Interp, a []absint.Value) absint.Value {
+		v, ok := canSet[a[0]]
+		if !ok {
+			panic(&absint.Undecided{Msg: "CanSet asked of something else than a field's value"})
+		}
+		return absint.Bool(v)
+	}
+	iterate := func(ip *absint.Interp, a []absint.Value) absint.Value {
+		ty, ok := a[0].(*absint.Tok)
+		var cb absint.Value
+		for _, x := range a[1:] {
+			switch x.(type) {
+			case *absint.Closure, *ssa.Function:
+				cb = x
+			}
+		}
+		if !ok || layout[ty.ID] == nil || cb == nil {
+			panic(&absint.Undecided{Msg: "the struct-field iterator is asked to walk " + absint.Show(a[0])})
+		}
+		for _, f := range layout[ty.ID] {
+			sf := absint.NewTok("sf:"+f.name, "structfield")
+			ft := absint.NewTok("T:"+f.name, "type")
+			kindOf[ft] = f.kind
+			fv := absint.NewTok("V:"+f.name, "rvalue")
+			canSet[fv] = f.canSet
+			sf.Fields["Anonymous"], sf.Fields["Tag"], sf.Fields["Type"], sf.Fields["Name"] = absint.Bool(f.anonymous), absint.Str(""), ft, absint.Str(f.name)
+			if f.name == "a" {
+				sf.Fields["Tag"] = absint.Str(`wire:""`)
+			}
+			if e := ip.CallValue(cb, sf, fv); e != nil {
+				if _, isNil := e.(absint.Nil); !isNil {
+					return e
+				}
+			}
+		}
+		return absint.Nil{}
+	}
+	n := 0
+	for _, fn := range c.Scope {
+		if p := core.PkgOf(fn); p == nil || !strings.HasSuffix(p.Pkg.Path(), "util/reflectx") || fn.Parent() != nil {
+			continue
+		}
+		for _, pa := range fn.Params {
+			if sig, ok := pa.Type().Underlying().(*types.Signature); ok && sig.Params().Len() == 2 && sig.Params().At(0).Type().String() == "reflect.StructField" {
+				t.callee[fn] = iterate
+				n++
+			}
+		}
+	}
+	if n == 0 {
+		return "", "no struct-field iterator in util/reflectx"
+	}
+	ip := absint.New(t)
+	ip.IsLog, ip.InScope = core.IsLogCall, c.InScope
+	ip.MaxDepth = 16 // one level of embedding nests scan -> helpers -> iterator -> callback twice
+	out := ip.Run(scan, layoutArgs(scan, func(ty types.Type) absint.Value {
+		if pt, ok := ty.Underlying().(*types.Pointer); ok {
+			switch core.NamedOf(pt.Elem()) {
+			case metaT:
+				return m
+			case holderT:
+				return top
+			}
+		}
+		return nil
+	}), nil)
+	if out.Undecided != nil {
+		return "", out.Undecided.Msg
+	}
+	if out.Panic != nil {
+		return "PANIC " + out.Panic.Msg, ""
+	}
+	collected, _ := m.Fields["Fields"].(*absint.List)
+	if (collected == nil || len(collected.Elems) == 0) && len(out.Ret) == 1 {
+		if l, ok := out.Ret[0].(*absint.List); ok {
+			collected = l // the routine hands the list back instead of appending it to the definition
+		}
+	}
+	var got []string
+	if collected != nil {
+		for _, e := range collected.Elems {
+			f, ok := e.(*absint.Tok)
+			if !ok {
+				got = append(got, absint.Show(e))
+				continue
+			}
+			b, _ := f.Fields["Base"].(*absint.Tok)
+			ty, val := "?", "?"
+			if b != nil {
+				ty, val = absint.Show(b.Fields["Type"]), absint.Show(b.Fields["Value"])
+			}
+			hd := "?"
+			if h, ok := f.Fields["Holder"].(*absint.Tok); ok {
+				switch {
+				case h == top:
+					hd = "top"
+				case h.Fields["IsEmbed"] == absint.Value(absint.Bool(true)) && h.Fields["Holder"] == absint.Value(top) && h.Fields["Meta"] == absint.Value(m):
+					hb, _ := h.Fields["Base"].(*absint.Tok)
+					if hb != nil {
+						hd = "embed(" + absint.Show(hb.Fields["Type"]) + "," + absint.Show(hb.Fields["Value"]) + ")"
+					}
+				}
+			}
+			sfn := "?"
+			if sf, ok := f.Fields["StructField"].(*absint.Tok); ok {
+				sfn = absint.Show(sf.Fields["Name"])
+			}
+			got = append(got, fmt.Sprintf("%s:%s/%s@%s", sfn, ty, val, hd))
+		}
+	}
+	want := []string{`"a":T:a/V:a@top`, `"x":T:x/V:x@embed(T:Embedded,V:Embedded)`, `"b":T:b/V:b@top`}
+	if fmt.Sprint(got) != fmt.Sprint(want) {
+		return fmt.Sprintf("struct {a; Embedded{x; y unexported}; b}: recorded %v, expected %v", got, want), ""
+	}
+	return "", ""
 }
 
 var tagScanRows = map[string]string{
